@@ -72,10 +72,10 @@ func racePass(c *Ctx, p *Prop, res *Result) {
 	var werr error
 	select {
 	case werr = <-done:
-	case <-time.After(15 * time.Minute):
+	case <-time.After(6 * time.Minute):
 		cmd.Process.Kill()
 		<-done
-		res.Cap("race-detector pass stopped by its 15 min watchdog")
+		res.Cap("race-detector pass stopped by its 6 min watchdog (the free-running bodies did not finish: possibly a deadlock on real goroutines; decided by the scheduler-driven phases, not here)")
 		return
 	}
 	res.Add("race_pass_wall_ms", time.Since(start).Milliseconds())
